@@ -36,8 +36,15 @@ def run(ctx):
         b = ctx.go_test_binary(pkg, name, module_dir="estargz")
         if b:
             ctx.correspond(b, "TestVerifC03", "svdriver_c03", tag,
-                           env={"VERIF_N": n, "VERIF_MAXCHECK": 60000 if quick else 120000},
+                           env={"VERIF_N": n, "VERIF_MAXCHECK": 60000 if quick else 120000,
+                                "VERIF_C03_STREAM": "main"},
                            timeout=600 if quick else 3000)
+            # the candidate findings live in their own stream (own harness run), so that the main stream
+            # is silent on the unchanged tree and any model mismatch in it breaks the tie
+            ctx.correspond(b, "TestVerifC03", "svdriver_c03", tag + "-findings",
+                           env={"VERIF_N": 10 if quick else 200, "VERIF_MAXCHECK": 60000,
+                                "VERIF_C03_STREAM": "findings"},
+                           timeout=600)
     return ctx.finish(
         level="proof",
         rule="tars of 0..9 entries per AppendTar call (regular files of size 0, 1, c-1, c, c+1, k*c-1..k*c+1 and random, "
